@@ -383,7 +383,7 @@ class AbstractLocScaleDistribution(AbstractTransformed):
     @property
     def loc(self):
         """Location of the distribution."""
-        return self.bijection.loc
+        return unwrap(self.bijection.loc)
 
     @property
     def scale(self):
@@ -475,7 +475,7 @@ class MultivariateNormal(AbstractTransformed):
     @property
     def loc(self):
         """Location (mean) of the distribution."""
-        return self.bijection.loc
+        return unwrap(self.bijection.loc)
 
     @property
     def covariance(self):
@@ -521,12 +521,12 @@ class Uniform(AbstractLocScaleDistribution):
     @property
     def minval(self):
         """Minimum value of the uniform distribution."""
-        return self.bijection.loc
+        return unwrap(self.bijection.loc)
 
     @property
     def maxval(self):
         """Maximum value of the uniform distribution."""
-        return self.bijection.loc + unwrap(self.bijection.scale)
+        return unwrap(self.bijection.loc) + unwrap(self.bijection.scale)
 
 
 class _StandardGumbel(AbstractDistribution):
